@@ -30,7 +30,18 @@ def str_models(log):
             log.append((name, t['resolved'], texts, args, ret, site))
             yield (ret, st, 'ok', None)
         return f
+    def strip_prefix(ip, st, fr, t, args, site, dest_ty):
+        # str::strip_prefix(s, lit): Some(rest of s after lit) when s starts with lit, None otherwise
+        texts = tuple(absint.as_str(ip, st, a) for a in args)
+        payload = st.fresh(0, 'strip_prefix')
+        s2 = st.copy()
+        s2.events.append(('pure', t['resolved'], tuple(args), payload, site, texts, (), 'Some'))
+        st.events.append(('pure', t['resolved'], tuple(args), payload, site, texts, (), 'None'))
+        log.append(('strip_prefix', t['resolved'], texts, args, payload, site))
+        yield (('agg', absint.SOME, (payload,)), s2, 'ok', None)
+        yield (('agg', absint.NONE, ()), st, 'ok', None)
     return {
+        'core::str::<impl str>::strip_prefix': strip_prefix,
         'core::str::<impl str>::split_whitespace': pure('split_whitespace'),
         '<std::str::SplitWhitespace<\'a> as std::iter::Iterator>::next': pure('ws_next'),
         'core::str::<impl str>::trim': pure('trim'),
@@ -116,6 +127,15 @@ def run(ctx, chk):
                          'starts_with known true=%s' % (k, lit, same_s, cond), file, gu[0][4][1])
             fr_ = [e for e in evs if e[1].endswith('from_str_radix')]
             if fr_ and same(fr_[0][2][0], gu[0][3]) and fr_[0][2][1] == C(32, 16):
+                okr = [e for e in evs if e[1].endswith('Result::<T, E>::ok')]
+                if okr and same(okr[-1][2][0], fr_[0][3]) and r.ret == okr[-1][3]:
+                    hex_ok = True
+        elif any(e[1].endswith('strip_prefix') and e[7] == 'Some' for e in evs):
+            # the safe form of the same thing: the text after the prefix is what strip_prefix hands back
+            sp_ = [e for e in evs if e[1].endswith('strip_prefix')][0]
+            lit = sp_[5][1]
+            fr_ = [e for e in evs if e[1].endswith('from_str_radix')]
+            if fr_ and same(fr_[0][2][0], sp_[3]) and fr_[0][2][1] == C(32, 16) and lit is not None and lit == lit.lower():
                 okr = [e for e in evs if e[1].endswith('Result::<T, E>::ok')]
                 if okr and same(okr[-1][2][0], fr_[0][3]) and r.ret == okr[-1][3]:
                     hex_ok = True
@@ -250,71 +270,116 @@ def run(ctx, chk):
         if t[2].startswith('ret:decode') and t[2].endswith('.1'):
             return AV(64, 1, maxlen)
         return None
+    # Two consecutive iterations from the summarised loop state.  Whatever the loop keeps (a cursor into the input or the
+    # remaining slice), the relation is between the slices handed to decode() and the addresses pushed:
+    #   decode#1 gets input[s1..], s1 < len;  decode#2 gets input[s1 + length#1 ..];  address#2 = address#1 + length#1
+    from .. import bvproof
     ipd = absint.Interp(facts, loop_mode='havoc', opaque=['decoder::decode'], sym_facts=sf,
                         models={'<T as std::string::ToString>::to_string': absint.m_pure('tostring', 0),
                                 'std::vec::Vec::<T, A>::push': absint.m_pure('push', 0),
                                 'std::vec::Vec::<T>::new': absint.m_pure('vecnew', 0)},
-                        trust_asserts=('overflow',))
+                        trust_asserts=('overflow',), extra_iterations=1)
     st = ipd.new_state()
     st.mem[('O', 'code')] = S(0, 'code')
     code_len = S(64, 'len(code)', ('len', 'code'))
     ins = ('slice', ('O', 'code'), (), C(64, 0), code_len)
-    rs = ipd.run(DIS, [S(16, 'addr0'), ins], st)
+    addr0 = S(16, 'addr0')
+    rs = ipd.run(DIS, [addr0, ins], st)
     dfile = 'src/debug/disassembly/mod.rs'
-    body = [r for r in rs if r.status == 'loopback' and any(e[0] == 'call' and e[1] == 'decoder::decode' and
-                                                            e[4][0] == DIS for e in r.state.events)]
-    tile_ok = bool(body)
-    outer_seen = False
-    why = 'no loop iteration calling decode found'
-    buf_ok = True
     fn = prog.fns[DIS]
-    for r in body:
+    loops = ipd.loops_of(DIS)
+    dec_blocks = [i for i, b_ in enumerate(fn['blocks']) if b_['term']['k'] == 'call' and
+                  (b_['term']['resolved'] or b_['term']['callee']) == 'decoder::decode']
+    outer = [h for h, body_ in loops.items() if any(d in body_ for d in dec_blocks)]
+    outer = max(outer, key=lambda h: len(loops[h])) if outer else None
+    tile_ok = outer is not None
+    why = 'no loop calling decode found'
+    buf_ok = True
+    pairs = 0
+    singles = 0
+    htag = ':bb%d)' % outer if outer is not None else None
+
+    def proved(cond, env):
+        return env.const_of(cond) == 1 or bvproof.equal_under(cond, C(1, 1), env, 1) is True
+
+    def eq64(a_, b_, env, w=64):
+        return a_ == b_ or diff_const(a_, b_, env, w) == 0 or bvproof.equal_under(a_, b_, env, w) is True
+    start_head = None
+    for r in rs:
+        if r.status not in ('ok', 'loopback'):
+            continue
+        if r.status == 'loopback' and r.where and r.where[2] != outer:
+            continue      # cut inside the inner byte-copy loop
         env = r.state.env
-        dec = [e for e in r.state.events if e[0] == 'call' and e[1] == 'decoder::decode'][0]
-        sl = dec[2][0]
-        guard = [d[0] for d in r.state.decisions if d[0][0] == 'o' and d[0][2] == 'ult' and d[0][4] == code_len]
-        if not guard or env.const_of(guard[0]) != 1:
-            tile_ok, why = False, 'loop is not guarded by cursor < instructions.len()'
+        evs = r.state.events
+        hv = [i for i, e in enumerate(evs) if e[0] == 'loopinit' and htag in e[1][2]]
+        if not hv:
             continue
-        cursor = guard[0][3]
-        import re
-        mhead = re.search(r':bb(\d+)\):_\d+$', cursor[2])
-        if mhead and r.where and r.where[2] != int(mhead.group(1)):
-            continue      # iteration of the inner byte-copy loop, not of the instruction loop
-        outer_seen = True
-        if sl[0] != 'slice' or sl[3] != cursor:
-            tile_ok, why = False, 'decode is given a slice starting at %s, not at the cursor %s' % (fmt(sl[3]) if sl[0] == 'slice' else fmt(sl), fmt(cursor))
-            continue
-        length = S(64, dec[3][2] + '.1', None)
-        # final cursor / address locals
-        import re
-        nc = int(re.search(r'_(\d+)$', cursor[2]).group(1))
-        fc = r.state.mem.get(('L', 1, nc))
-        lens = [s_ for s_ in syms_of(fc) if s_[2].startswith(dec[3][2])] if fc is not None else []
-        if fc is None or not lens or diff_const(fc, O(64, 'add', cursor, lens[0]), env, 64) != 0 or not lens[0][2].endswith('.1'):
-            tile_ok, why = False, 'cursor after the instruction is %s, expected cursor + decoded length' % (fmt(fc) if fc else None)
-            continue
-        # address local: a 16-bit loopvar advanced by the same length
-        addr_ok = False
-        for i, l in enumerate(fn['locals']):
-            if l['ty'] == 'u16':
-                v = r.state.mem.get(('L', 1, i))
-                if v is not None and T.is_int(v):
-                    base = [s_ for s_ in syms_of(v) if s_[2].startswith('loopvar:') and s_[1] == 16]
-                    if base and diff_const(v, O(16, 'add', base[0], O(16, 'trunc', lens[0])), env, 16) == 0:
-                        addr_ok = True
-        if not addr_ok:
-            tile_ok, why = False, 'the address does not advance by the decoded length'
-        for e in r.state.events:
+        inits = {e[1]: e[2] for e in evs if e[0] == 'loopinit'}
+        evs = evs[hv[-1] + 1:]
+        decs = [e for e in evs if e[0] == 'call' and e[1] == 'decoder::decode']
+        pushes = [e for e in evs if e[0] == 'pure' and e[1].endswith('::push')]
+        for e in evs:
             if e[0] == 'assert' and e[1] == 'bounds' and e[3] != 'discharged':
                 d = e[4]
                 if d and d[2] is not None and d[2][0] == 'c':
                     buf_ok = False
-    if tile_ok and not outer_seen:
+        if not decs:
+            continue
+        sl1 = decs[0][2][0]
+        if sl1[0] != 'slice' or sl1[1] != ('O', 'code'):
+            tile_ok, why = False, 'decode is not given a part of the input (%s)' % fmt(sl1)[:80]
+            continue
+        s1, n1 = sl1[3], sl1[4]
+        singles += 1
+        if start_head is None:
+            start_head = s1
+        if not eq64(O(64, 'add', s1, n1), code_len, env):
+            tile_ok, why = False, 'the slice handed to decode (%s, %s bytes) does not run to the end of the input' % (fmt(s1), fmt(n1))
+            continue
+        if not proved(O(1, 'ult', s1, code_len), env):
+            tile_ok, why = False, 'loop is not guarded by cursor < instructions.len()'
+            continue
+        # base case: with the loop variables at their initial values the first slice starts at 0
+        s1_0 = bvproof.subst(s1, inits)
+        if env.const_of(s1_0) != 0 and not eq64(s1_0, C(64, 0), env):
+            tile_ok, why = False, 'the first slice handed to decode starts at %s, not at the start of the input' % fmt(s1_0)
+            continue
+        length1 = S(64, decs[0][3][2] + '.1', None)
+        if len(decs) >= 2:
+            sl2 = decs[1][2][0]
+            if sl2[0] != 'slice' or sl2[1] != ('O', 'code') or not eq64(sl2[3], O(64, 'add', s1, length1), env):
+                tile_ok, why = False, ('cursor after the instruction is %s, expected cursor + decoded length'
+                                       % (fmt(sl2[3]) if sl2[0] == 'slice' else fmt(sl2)))
+                continue
+            if len(pushes) < 2:
+                tile_ok, why = False, 'an iteration does not push an instruction'
+                continue
+
+            def addr_of(pe):
+                v = pe[2][1] if len(pe[2]) > 1 else None
+                if v is not None and v[0] == 'agg' and v[1][0] == 'adt' and v[2]:
+                    adt = facts['adts'].get(v[1][1])
+                    names_ = [f_['name'] for f_ in adt['fields']] if adt else []
+                    if 'address' in names_:
+                        return v[2][names_.index('address')]
+                return None
+            a1, a2 = addr_of(pushes[0]), addr_of(pushes[1])
+            if a1 is None or a2 is None or not T.is_int(a1) or not T.is_int(a2) or \
+                    not eq64(a2, O(16, 'add', a1, O(16, 'trunc', length1)), env, 16):
+                tile_ok, why = False, 'the address does not advance by the decoded length'
+                continue
+            a1_0 = bvproof.subst(a1, inits)
+            if not eq64(a1_0, addr0, env, 16):
+                tile_ok, why = False, 'the first address is %s, not the initial address' % fmt(a1_0)
+                continue
+            pairs += 1
+    if tile_ok and not pairs:
         tile_ok, why = False, 'no complete iteration of the instruction loop found'
     if tile_ok:
-        chk.ok('C20.4', 'tiling', sample={'cursor += length, address += length': 'length from decode(&instructions[cursor..])',
-                                          'guard': 'cursor < instructions.len()'})
+        chk.ok('C20.4', 'tiling', sample={'decode#2 slice start, address#2': 'decode#1 slice start + length#1, address#1 + length#1',
+                                          'guard': 'slice start < instructions.len(), slice runs to the end',
+                                          'paths with two iterations': pairs})
     else:
         chk.fail('C20.4', 'tiling', 'disassemble: %s' % why, dfile, None)
     if buf_ok and maxlen and maxlen <= 4:
@@ -322,9 +387,21 @@ def run(ctx, chk):
     else:
         chk.fail('C20.4', 'copy-buffer', 'the per-instruction byte buffer does not cover the maximum decoder length %d'
                  % maxlen, dfile, None)
+    # exit: the function returns only when the loop state says nothing is left (start of the next slice >= len)
     exits = [r for r in rs if r.status == 'ok']
-    if exits and all(any(d[0][0] == 'o' and d[0][2] == 'ult' and r.state.env.const_of(d[0]) == 0 for d in r.state.decisions)
-                     for r in exits):
+    exit_ok = bool(exits) and start_head is not None
+    for r in exits:
+        evs = r.state.events
+        hv = [i for i, e in enumerate(evs) if e[0] == 'loopinit' and htag and htag in e[1][2]]
+        decs = [e for e in (evs[hv[-1] + 1:] if hv else evs) if e[0] == 'call' and e[1] == 'decoder::decode']
+        if decs:
+            nxt = O(64, 'add', decs[-1][2][0][3], S(64, decs[-1][3][2] + '.1', None)) if decs[-1][2][0][0] == 'slice' else None
+        else:
+            nxt = start_head if hv else C(64, 0)
+        if nxt is None or not (r.state.env.const_of(O(1, 'ult', nxt, code_len)) == 0 or
+                               bvproof.equal_under(O(1, 'ult', nxt, code_len), C(1, 0), r.state.env, 1) is True):
+            exit_ok = False
+    if exit_ok:
         chk.ok('C20.4', 'exit', sample={'loop exits when': 'cursor >= instructions.len()'})
     else:
         chk.fail('C20.4', 'exit', 'disassemble can return before the cursor reaches the end of the input', dfile, None)
